@@ -1,5 +1,6 @@
 (* c04_model.ml — unverified glue around the extracted reader model (coq/Reader.v):
      c04_model <cases-file>
+     c04_model --witness <dir>      writes the witness files Reader.w_* as <dir>/<name>.nc
    cases-file lines:   <tag> <chunk_hint> <mm> <maxdata> <path>
    For every case prints what harness/c04_open.c must print for that file (same text form), as
    predicted by the model, preceded by a line `case <tag>` and the model-only lines
@@ -135,7 +136,19 @@ let dump_ok (o : opened) (file : string) (maxdata : BZ.t) (getsize : z) =
       end) h.h_vars;
   Printf.printf "close 0\n"
 
+let witnesses = [
+  "w_rndup_int", w_rndup_int; "w_attr_null", w_attr_null; "w_attrV_mul", w_attrV_mul;
+  "w_attr_xlen", w_attr_xlen; "w_shape_product", w_shape_product; "w_var_calloc", w_var_calloc;
+  "w_check_vlen", w_check_vlen; "w_begin_len", w_begin_len; "w_numrecs_neg", w_numrecs_neg;
+  "w_dim_neg", w_dim_neg; "w_alloc_dims", w_alloc_dims; "w_read_zeros", w_read_zeros ]
+
 let () =
+  if Array.length Sys.argv >= 3 && Sys.argv.(1) = "--witness" then begin
+    List.iter (fun (n, bs) ->
+        let oc = open_out_bin (Filename.concat Sys.argv.(2) (n ^ ".nc")) in
+        output_string oc (string_of_bytes bs); close_out oc) witnesses;
+    exit 0
+  end;
   let ic = open_in Sys.argv.(1) in
   (try
     while true do
@@ -152,7 +165,7 @@ let () =
            | Crash s -> Printf.printf "result crash %s\n" (site_name s));
           Printf.printf "cost %s %s %s %s %s %s\n" (sz o.out_fetches) (sz o.out_offset) (sz o.out_getsize)
             (sz o.out_acct.ac_alloc) (sz o.out_acct.ac_maxreq) (sz o.out_acct.ac_nalloc);
-          let fr = open_flat (zs chunk) (zs mm) fl in
+          let fr = open_flat (zs mm) fl in
           Printf.printf "flat %s\n" (if fr = o.out_res then "same" else "diff");
           (match decode fl with
            | Some d ->
